@@ -834,9 +834,14 @@ func TestC44(t *testing.T) {
 		probes = append(probes, c44Probe{Via: "raw", Mut: c44Mut{Kind: "none"}, HelloVers: -1}, c44Probe{Via: "raw", Mut: c44Mut{Kind: "none"}, DropSuite: true})
 		c44CheckHistory(t, rec, base, probes)
 	}
+	c44KeyFileSweep(t, rec)
 	rapid.Check(t, func(rt *rapid.T) {
-		if rapid.IntRange(0, 2).Draw(rt, "kind") == 0 {
+		switch rapid.IntRange(0, 6).Draw(rt, "kind") {
+		case 0, 1:
 			c44DirectBatch(rt, rec)
+			return
+		case 2:
+			c44KeyFileBatch(rt, rec)
 			return
 		}
 		base := drawC44Base(rt)
